@@ -523,7 +523,7 @@ pub fn finish(ctx: &Ctx) -> i32 {
     crate::engine::finish(
         ctx,
         Finish {
-            rule: "files: generated modules (ordered / interleaved / wild), half of them with 1-3 stacked byte-level faults, raw random bytes, 0-19 byte prefixes of a header, header + junk, loadable modules whose disassembly has a line of every length around each power of two from 256 to 65536 bytes as the last line / in the middle / before a function (2700 files), OpExtInst with every number around the boundaries of the GLSL.std.450 / OpenCL.std tables on a GLSL, an OpenCL and an unknown import, type-chaos modules (forward references, re-declared ids, constants before their types), and fixed files (empty, 4 bytes, header only, the historical crashers, 64 KiB of OpNop). Oracle: spawn target/dis/release/rspirv-dis <file> (built from /repo's working tree): exit status 0, no panic message on stderr, stdout == disassemble() + newline if load_bytes succeeds in-process, else the Display of the loading error + newline, which must be a single line. non-trivial = file longer than 24 bytes; distinct = hash of the file.",
+            rule: "files: generated modules (ordered / interleaved / wild), half of them with 1-3 stacked byte-level faults, raw random bytes, 0-19 byte prefixes of a header, header + junk, loadable modules whose disassembly has a line of every length around each power of two from 256 to 65536 bytes as the last line / in the middle / before a function (2700 files), OpExtInst with every number around the boundaries of the GLSL.std.450 / OpenCL.std tables on a GLSL, an OpenCL and an unknown import, type-chaos modules (forward references, re-declared ids, constants before their types), and fixed files (empty, 4 bytes, header only, the historical crashers, 64 KiB of OpNop). Oracle: spawn target/dis/release/rspirv-dis <file> (built from /repo's working tree): exit status 0, no panic message on stderr, stdout == disassemble() + newline if load_bytes succeeds in-process, else the Display of the loading error + newline, which must be a single line. non-trivial = file longer than 24 bytes; distinct = hash of the file. Added in rounds 18-19: structural-variations, text-files (hex dumps in every printf spelling, disassembly, JSON, UTF-16, base64) and ext-inst-numbers on every set name of the registry.",
             assumptions: vec!["the in-process library call is the reference for the text; its own correctness is C07/C03's subject".into()],
             trusted_base: vec!["OS process interface".into(), "cargo build of /repo's rspirv-dis".into()],
         },
